@@ -5,6 +5,7 @@ import (
 	"os"
 	"path/filepath"
 
+	"github.com/sarchlab/akita/v5/messaging"
 	"github.com/sarchlab/akita/v5/timing"
 )
 
@@ -50,6 +51,7 @@ func (a StackAssembly) Done() (bool, int) {
 	}
 	return done, errs
 }
+func (a StackAssembly) Ports() []messaging.Port { return a.AllPorts() }
 func (a StackAssembly) InFlight() int {
 	n := 0
 	for _, p := range a.Sim.Ports() {
